@@ -897,3 +897,134 @@ func init() {
 		runPuppetCases(x, x.P.Int("cases", 6), shim.FSMOpts{Seed: x.Seed, SnapThreshold: x.P.Int("snapthr", 0), RestoreUs: x.P.Int("restoreus", 0)}, puppetSticky)
 	}
 }
+
+// ---------------------------------------------------------------- C06 / C11 / C04: requests that overlap an installation which waits for an application in flight
+
+// puppetISWindow: the follower holds a stale uncommitted tail (leader of term 1) that reaches beyond the label of
+// the snapshot the leader of term 3 sends, and its state machine is busy applying an earlier committed entry
+// (fixed, long Apply) when the final chunk arrives. The installation has to wait for that application before it
+// may restore. Meanwhile the leader behaves as the library's sender does: it retransmits the chunk with the next
+// heartbeat, and once a retransmission is acknowledged as complete it continues with AppendEntries right after
+// the label (entries + commit index). Until the log has been replaced the follower's entry at the label is the
+// stale one, so such a request must not succeed: a success acknowledges entries on top of a prefix the sender
+// does not have (log matching), lets the commit index cover the stale entries, and the entries it acknowledged
+// are thrown away by the log replacement that follows.
+func puppetISWindow(p *puppet, r *rand.Rand) {
+	cfg := p.cfgBytes
+	op := func(i, t uint64) wEntry {
+		return wEntry{Index: i, Term: t, Type: raft.OperationEntry, Data: []byte(fmt.Sprintf("op-t%d-i%d", t, i))}
+	}
+	w := &world{cfg: cfg}
+	tail := 2 + r.Intn(3) // stale entries after the common prefix (indices 3..2+tail)
+	w.L[1] = []wEntry{{Index: 1, Term: 1, Type: raft.ConfigurationEntry, Data: cfg}, op(2, 1)}
+	for i := 0; i < tail; i++ {
+		w.L[1] = append(w.L[1], op(uint64(3+i), 1))
+	}
+	w.C[1] = 2
+	w.L[2] = append(append([]wEntry(nil), w.L[1][:2]...), op(3, 2))
+	w.C[2] = 2
+	w.L[3] = append([]wEntry(nil), w.L[1][:2]...)
+	n3 := tail + 1 + r.Intn(3)
+	for i := 0; i < n3; i++ {
+		w.L[3] = append(w.L[3], op(uint64(3+i), 3))
+	}
+	s := 3 + r.Intn(tail) // label inside the stale tail: the follower's entry there has term 1, the snapshot says 3
+	w.C[3] = s + r.Intn(len(w.L[3])-s+1)
+	p.w = w
+	// the follower stores the whole log of leader 1 and starts applying index 2 (slow)
+	p.ae(1, 1, 1, len(w.L[1])-1, 2)
+	time.Sleep(5 * time.Millisecond) // the apply loop has picked up index 2 (it stays inside Apply for applyus)
+	cnt, chn, lst := w.canon(3, s)
+	data := shim.EncodeSnap(cnt, chn, lst, r.Intn(3)*50)
+	p.M.Emit(mon.Event{Kind: mon.KWorldSnap, Node: leaderOf(3), Idx: uint64(s), Term: 3, Num: int64(len(data)), Hash: mon.HashBytes(data), Cnt: cnt, Chn: chn})
+	ev := mon.Event{Kind: mon.KWorldCommit}
+	for i := 1; i <= w.C[3]; i++ {
+		ev.Ents = append(ev.Ents, p.C.Net.EntryOf(w.ents(3, i, i)[0]))
+	}
+	p.M.Emit(ev)
+	req := raft.InstallSnapshotRequest{LeaderID: leaderOf(3), Term: 3, LastIncludedIndex: uint64(s), LastIncludedTerm: 3, Configuration: cfg, Bytes: data, Offset: 0, Done: true}
+	p.log("IS(term 3, label %d/3, %d bytes, done) while index 2 is being applied", s, len(data))
+	p.M.Emit(mon.Event{Kind: mon.KNote, Str: "concurrent-requests"})
+	first := make(chan error, 1)
+	go func() {
+		_, err := p.eps["A"].SendInstallSnapshot("p", req)
+		first <- err
+	}()
+	time.Sleep(10 * time.Millisecond)
+	returned := false
+	select {
+	case <-first:
+		returned = true
+	default:
+		p.x.count("iswindow.install_waiting", 1)
+	}
+	if !returned {
+		// retransmission with the next heartbeat
+		resp, err := p.eps["A"].SendInstallSnapshot("p", req)
+		p.log("  retransmission -> written=%d err=%v", resp.BytesWritten, err)
+		if err == nil && resp.BytesWritten == int64(len(data)) {
+			p.x.count("iswindow.retransmission_acked", 1)
+		}
+	}
+	// the leader continues after the label
+	n := r.Intn(len(w.L[3]) - s + 1)
+	aresp, aerr := p.ae(3, 3, s, n, w.C[3])
+	if aerr == nil && !returned {
+		select {
+		case <-first:
+			returned = true
+		default:
+			p.x.count("iswindow.ae_during_wait", 1)
+			if aresp.Success {
+				p.x.count("iswindow.ae_success_during_wait", 1)
+			}
+		}
+	}
+	p.sample()
+	if !returned {
+		select {
+		case <-first:
+		case <-time.After(2 * time.Second):
+			p.log("  (first invocation still parked)")
+		}
+	}
+	p.sample()
+	// the leader carries on from whatever the follower tells it (at most a few rounds), then everything is announced
+	next := s + n + 1
+	for round := 0; round < 6; round++ {
+		prev := next - 1
+		if prev > len(w.L[3]) {
+			prev = len(w.L[3])
+		}
+		resp, err := p.ae(3, 3, prev, len(w.L[3])-prev, w.C[3])
+		if err != nil {
+			break
+		}
+		if resp.Success {
+			break
+		}
+		next = int(resp.Index)
+		if next <= s {
+			// the follower asks for entries inside the snapshot: the sender would send the snapshot again
+			p.is(req)
+			next = s + 1
+		}
+	}
+	time.Sleep(5 * time.Millisecond)
+	p.sample()
+	if r.Intn(2) == 0 {
+		p.crashRestart()
+		time.Sleep(5 * time.Millisecond)
+		p.sample()
+	}
+	p.probes(r)
+}
+
+func init() {
+	Registry["puppet.iswindow"] = func(x *Ctx) {
+		if _, ok := x.P["etms"]; !ok {
+			x.P["etms"] = "150" // the node must stay a follower while its state machine is busy
+		}
+		runPuppetCases(x, x.P.Int("cases", 6), shim.FSMOpts{Seed: x.Seed, ApplyFixUs: x.P.Int("applyus", 60000)}, puppetISWindow)
+	}
+}
